@@ -378,6 +378,13 @@ def impl_overlap(case):
     return {"snp_idx": [int(x) for x in r[0]], "str_idx": [int(x) for x in r[1]]}
 
 
+def model_req_overlap(case):
+    """names enter the walk through their rank in Python's string order; entries sorted by name, as _SortSamples does"""
+    rank = {n: i for i, n in enumerate(sorted(set(case["snp"]) | set(case["str"])))}
+    enc = lambda l: sorted([rank[n], i] for i, n in enumerate(l))
+    return {"op": "overlap", "snp": enc(case["snp"]), "str": enc(case["str"])}
+
+
 def oracle_overlap(case, obs):
     if "error" in obs:
         return f"raised {obs}"
@@ -394,7 +401,7 @@ def oracle_overlap(case, obs):
 CHECK = Check(
     id="C17",
     title="clump output is exactly greedy LD clumping and always terminates",
-    theorems=["C17.index_order", "C17.members_exact", "C17.load_filters", "C17.step_shrinks", "C17.clumps_disjoint", "C17.clumps_from_table", "C17R.pearson_r2_in_unit_interval", "C17R.exact_r2_in_unit_interval", "C17R.cubic_root_no_double_het"],
+    theorems=["C17.index_order", "C17.members_exact", "C17.load_filters", "C17.step_shrinks", "C17.clumps_disjoint", "C17.clumps_from_table", "C17.overlapping_samples_exact", "C17R.pearson_r2_in_unit_interval", "C17R.exact_r2_in_unit_interval", "C17R.cubic_root_no_double_het"],
     imports=("HapModel", "HapReal"),
     build_targets=("HapModel", "HapReal"),
     sections=[
@@ -426,12 +433,14 @@ CHECK = Check(
         ),
         Section(
             name="overlapping_samples",
-            theorems=[],
+            theorems=["C17.overlapping_samples_exact"],
             gen=gen_overlap,
             impl=impl_overlap,
+            model_req=model_req_overlap,
+            model_obs=lambda c, r: {"snp_idx": [p[0] for p in r["pairs"]], "str_idx": [p[1] for p in r["pairs"]]},
             oracle=oracle_overlap,
             nontrivial=lambda c, o: C.jdump(c) if set(c["snp"]) & set(c["str"]) else None,
-            rule="seeded random pairs of sample lists through GetOverlappingSamples: exactly the common samples, rows aligned",
+            rule="seeded random pairs of sample lists through GetOverlappingSamples, compared with the Lean two-pointer walk (names ranked by string order) and with the set intersection: exactly the common samples, rows aligned",
         ),
     ],
     trusted=["np.corrcoef / float arithmetic of the LD estimators (compared with exact rationals within 1e-9 / 2e-6)", "float() of decimal p-value tokens orders like the exact decimals (tokens are short decimals, comparisons are far from ties except exact equality)", "Python object identity of Variant objects = position in the loaded list"],
